@@ -31,6 +31,7 @@ class Alphabet:
         self.adts = adts or {}
         self.bools = set(bools or [])
         self.retval = retval
+        self.upvar_bools = False  # label SwitchInt on a captured bool: bool:upvar<i>=0|1
         self.drop_types = []  # [(substring of the dropped place's type, label)] -> event drop:<label> at Drop terminators
         self.adt_fn = None  # optional: adt def path -> short name (for ADTs recognised by shape, e.g. select!'s private enum)
         self.fut_types = fut_types or []  # [(substring of the awaited future's type, label)] for awaits of non-call values
@@ -270,6 +271,15 @@ def switch_labels(body, bi, t, alpha):
                 labels["otherwise"] = "sw:%s::%s%s" % (short_adt, rest[0], suffix)
             elif rest:
                 labels["otherwise"] = "sw:%s::{%s}%s" % (short_adt, ",".join(sorted(rest)), suffix)
+        return labels
+    # 2a. bool switch on a captured variable
+    if t.get("oty") == "bool" and alpha.upvar_bools and origs and all(x.kind == "upvar" and not x.proj for x in origs) and len({x.site for x in origs}) == 1:
+        idx = next(iter(origs)).site
+        for (val, _b) in t["targets"]:
+            labels[val] = "bool:upvar%d=%d" % (idx, int(int(val) != 0))
+        vals = {int(v) != 0 for (v, _) in t["targets"]}
+        if len(vals) == 1:
+            labels["otherwise"] = "bool:upvar%d=%d" % (idx, int(not next(iter(vals))))
         return labels
     # 2. bool switch on a call result
     if t.get("oty") == "bool" and alpha.bools:
